@@ -28,8 +28,8 @@ structure St where
 def notify (cfg : Cfg) (s : St) (t : Int) : St :=
   { s with last := t, fails := if cfg.maxRetries.isSome && notifyResetsFails then 0 else s.fails }
 
-/-- `KeepAlive.OnInactive` (n = maxRetries). -/
-def onInactive (n : Nat) (s : St) : St × List Out :=
+/-- `KeepAlive.OnInactive` (n = maxRetries); `sendOK` = does `sendPing` succeed. -/
+def onInactive (n : Nat) (s : St) (sendOK : Bool := true) : St × List Out :=
   let v := s.fails + 1
   let cancelOut : List Out := match s.cancelSet with | some g => [.cancelPing g] | none => []
   let s1 := { s with fails := v, cancelSet := none, pending := none }     -- checkCancelPing removes the handler
@@ -37,15 +37,16 @@ def onInactive (n : Nat) (s : St) : St × List Out :=
     ({ s1 with closed := true }, cancelOut ++ [.close])
   else
     let g := s.gen + 1
-    ({ s1 with gen := g, pending := some g, cancelSet := some g }, cancelOut ++ [.ping g])
+    if sendOK then ({ s1 with gen := g, pending := some g, cancelSet := some g }, cancelOut ++ [.ping g])
+    else ({ s1 with gen := g }, cancelOut ++ [.pingFailed g])       -- `sendPing` returned an error: nothing to cancel later
 
 /-- `CheckInactivity(now)`. -/
-def check (cfg : Cfg) (s : St) (now : Int) : St × List Out :=
+def check (cfg : Cfg) (s : St) (now : Int) (sendOK : Bool := true) : St × List Out :=
   if cfg.period = 0 then (s, [])
   else if (if fireStrict then now > s.last + cfg.period else now ≥ s.last + cfg.period) then
     match cfg.maxRetries with
     | none => ({ s with closed := true }, [.close])
-    | some n => onInactive n s
+    | some n => onInactive n s sendOK
   else (s, [])
 
 def step (cfg : Cfg) (s : St) (ev : Ev) : St × List Out :=
@@ -59,6 +60,7 @@ def step (cfg : Cfg) (s : St) (ev : Ev) : St × List Out :=
       ({ s1 with pending := none, fails := if s1.gen = g then 0 else s1.fails }, [])
     else (s1, [])
   | .tick t => check cfg s t
+  | .tickFail t => check cfg s t false
   | .datagram t =>
     -- udp/server getConn: CheckExpirations(now + look-ahead); if still open Notify(); then the datagram is processed
     let (s1, o) := check cfg s (t + serverLookaheadNs)
